@@ -4,6 +4,7 @@ Property theorems only (helper lemmas: KlogV/Lemmas/Values.lean).
 -/
 import KlogV.Lemmas.Values
 import KlogV.Props.Rx.Values
+import KlogV.Props.Rx.Model
 namespace KlogV.C16
 
 /-! ### Times -/
